@@ -311,7 +311,23 @@ def t_wrappers(repo, specs, orientation, h):
         n = (1 << (2 * h))
         want = ops.binop("-", ops.binop("-", n, S, "w"), 1, "w") if cls[0] else S
         ctx.oblige("s_to_anchor-passes-the-level-unchanged", zbool(ops.equal(res_in, h)), None, "post")
-        ctx.oblige("s_to_anchor-passes-the-(mirrored)-index", zbool(ops.equal(s_in, want)), None, "post")
+        # the inner function reads its index only through the base-4 digit list it extracts first (checked on the
+        # source), so what the wrapper owes it is an index with the digit list of the (mirrored) index - stated over
+        # the real extraction statements of _s_to_anchor, not over the integer itself
+        mod1, f1, _ = repo.function(S2A)
+        i1 = first_for(f1)
+        pname = f1.args.args[0].arg
+        later = [n for st in f1.body[i1:] for n in ast.walk(st) if isinstance(n, ast.Name) and n.id == pname]
+        ctx.oblige("_s_to_anchor-reads-its-index-only-through-the-extracted-digits", not later, None, "frame")
+
+        def digits_of(val):
+            frd = Frame(mod1, f1, S2A, {pname: val, f1.args.args[1].arg: h, f1.args.args[2].arg: cls[1], f1.args.args[3].arg: cls[2]})
+            it.exec_block(frd, f1.body[:i1])
+            return list(frd.locals["digits"])
+        d_in, d_want = digits_of(s_in), digits_of(want)
+        same = len(d_in) == len(d_want) == h
+        ctx.oblige("s_to_anchor-passes-an-index-with-the-digits-of-the-(mirrored)-index",
+                   zand(*[zbool(ops.equal(a, b)) for a, b in zip(d_in, d_want)]) if same else False, None, "post")
         ctx.oblige("s_to_anchor-passes-the-flags-of-its-class", zand(zbool(ops.equal(inv_in, cls[1])), zbool(ops.equal(flip_in, cls[2]))), None, "post")
         inner = ops.int_var("s_inner")
         ctx.assume(zand(inner >= 0, inner < n))
@@ -326,8 +342,9 @@ def t_wrappers(repo, specs, orientation, h):
         ctx.oblige("ij_to_s-passes-level-and-flags", zand(zbool(ops.equal(got["args"][2], h)), zbool(ops.equal(got["args"][0], cls[1])),
                                                           zbool(ops.equal(got["args"][1], cls[2]))), None, "post")
         ctx.oblige("ij_to_s-mirrors-the-inner-index-back", zbool(ops.equal(out, want2)), None, "post")
-        # the two mirrors cancel: with inner == s_in (parts A-C), out == S
-        ctx.oblige("mirrors-cancel", z3.Implies(zbool(ops.equal(inner, s_in)), zbool(ops.equal(out, S))), None, "post")
+        # the two mirrors cancel: parts A-C give inner == the in-range index with the digits handed to _s_to_anchor,
+        # i.e. the (mirrored) index; then out == S
+        ctx.oblige("mirrors-cancel", z3.Implies(zbool(ops.equal(inner, want)), zbool(ops.equal(out, S))), None, "post")
         return {"S": S}
     return fn
 
